@@ -476,7 +476,13 @@ impl UdpSocket {
         let data = buf.to_vec();
         let delivered = with(|w| {
             let q = w.net.udp.get(&to).cloned().or_else(|| {
-                // socket bound to the unspecified address with the same port
+                // socket bound to the unspecified address with the same port — only for destinations that are
+                // addresses of the simulated host itself (a datagram for a foreign address that happens to carry
+                // the port of a local socket is not delivered to it)
+                let local_dst = to.ip().is_loopback() || to.ip() == IpAddr::V4(Ipv4Addr::new(10, 0, 0, 1));
+                if !local_dst {
+                    return None;
+                }
                 w.net.udp.iter().find(|(k, _)| k.ip().is_unspecified() && k.port() == to.port()).map(|(_, v)| v.clone())
             });
             let q = q.or_else(|| w.net.udp_wildcard.clone());
